@@ -294,24 +294,24 @@ def _settle(ctx, prog):
     f = ctx.fn(r"gmsol_store::instructions::builder_fee::SettleBuilderFee::<'_>::invoke")
     if not f:
         return
-    rec_re = r"^Order::builder_fee_amount\(AccountLoader::load\(ctx\.accounts\.order\)\?\)$"
+    order = r"AccountLoader::load\(ctx\.accounts\.order\)\?"
+    rec_re = r"^(Order::builder_fee_amount\(" + order + r"\)|" + order + r"\.builder_fee_amount)$"
+    esc_re = r"^ctx\.accounts\.escrow(\.[0-9a-z_]+)*\.amount$"
     tcs = f.calls_to(r"token::transfer_checked$|token_interface::transfer_checked$|token_2022::transfer_checked$")
     cpis = [c for c in f.calls if re.search(r"(^|::)(invoke|invoke_signed|transfer|transfer_checked|burn|mint_to|close_account)$", c.name or "")]
     ctx.ob("settle:one-transfer", len(tcs) == 1 and len(cpis) == 1, "exactly one token CPI in settlement (%s)" % [c.rshort for c in cpis], where=f.where())
     if len(tcs) != 1:
         return
     tc = tcs[0]
-    amt = tc.arg_expr(1)
-    ok = amt.k == "call" and amt.a[0] in ("Ord::min", "cmp::min") and len(amt.a[1]) == 2
-    if ok:
-        xs = sorted(str(x) for x in amt.a[1])
-        ok = any(re.match(rec_re, x) for x in xs) and any(re.match(r"^ctx\.accounts\.escrow(\.[0-9a-z_]+)*\.amount$", x) for x in xs)
-    ctx.ob("settle:amount", ok, "transfer amount = min(recorded builder_fee_amount, escrow.amount): %s" % str(amt)[:160], where=f.where(tc.line))
-    ctxarg = str(tc.arg_expr(0))
-    ok = re.search(r"TransferChecked\{from: ToAccountInfo::to_account_info\(ctx\.accounts\.escrow", ctxarg) is not None and \
-        re.search(r"to: ToAccountInfo::to_account_info\(Option::ok_or_else\(Option::as_ref\(ctx\.accounts\.claim_vault\)", ctxarg) is not None and \
-        re.search(r"authority: ToAccountInfo::to_account_info\(ctx\.accounts\.order\)", ctxarg) is not None
-    ctx.ob("settle:route", ok, "transfer goes from the order's escrow to the builder's claim vault under the order's authority", where=f.where(tc.line))
+    # semantic: amount <= recorded and amount <= escrow.amount (min() call or compare+select), whatever the syntax
+    ok, how = H.is_min_of(f, tc.args[1], rec_re, esc_re)
+    ctx.ob("settle:amount", ok, "transfer amount = min(recorded builder_fee_amount, escrow.amount): %s" % how, where=f.where(tc.line))
+    # route: which accounts the CPI struct fields derive from, independent of how Options / Boxes are unwrapped
+    tcf = H.agg_fields(tc.arg_expr(0), r"(^|::)TransferChecked$")
+    roots = {k: sorted(H.account_roots(v)) for k, v in tcf.items()} if tcf else {}
+    ctx.ob("settle:route", roots.get("from") == ["escrow"] and roots.get("to") == ["claim_vault"] and roots.get("authority") == ["order"] and
+           roots.get("mint") == ["final_output_token"],
+           "transfer goes from the order's escrow to the builder's claim vault under the order's authority: %s" % roots, where=f.where(tc.line))
     facts = A.cmp_facts(f, tc.bb)
     ctx.ob("settle:nonzero-only", A.has_fact(facts, "!=", rec_re, r"^0$"), "the transfer happens only when the recorded amount != 0", where=f.where(tc.line))
     ok = any(o == "==" and re.search(r"Order::builder\(AccountLoader::load\(ctx\.accounts\.order\)\?\)", str(a) + str(b)) and
